@@ -75,6 +75,20 @@ class Module:
         return "<Module %s>" % self.name
 
 
+class _Normalise(ast.NodeTransformer):
+    """Rewrites that change no run-time behaviour, applied to every parsed
+    module so that no engine has to know the construct: an annotated assignment
+    `x: T = v` is the assignment `x = v`; a bare annotation `x: T` binds
+    nothing (only `__annotations__`, which gfapy never reads)."""
+
+    def visit_AnnAssign(self, node):
+        self.generic_visit(node)
+        if node.value is None:
+            return ast.copy_location(ast.Pass(), node)
+        return ast.copy_location(
+            ast.Assign(targets=[node.target], value=node.value), node)
+
+
 class External:
     """A module or object that is not part of the repository."""
     def __init__(self, name):
@@ -289,6 +303,8 @@ class Repo:
             tree = ast.parse(src, filename=path)
         except SyntaxError as e:
             raise AnalysisError("cannot parse %s: %s" % (path, e))
+        tree = _Normalise().visit(tree)
+        ast.fix_missing_locations(tree)
         set_parents(tree)
         m = Module(name, path, tree, src, is_pkg)
         for n in ast.walk(tree):
